@@ -2,6 +2,7 @@ package vrt
 
 import (
 	"fmt"
+	"reflect"
 	"sort"
 	"time"
 )
@@ -70,4 +71,46 @@ func Spawned(site string) {
 	if OnSpawn != nil {
 		OnSpawn(site)
 	}
+}
+
+// OnPoint is told about every statement-level point of consensus-profile code (instr -points); the concurrent-request pass
+// of C01 uses it to serve a request "on another goroutine" at exactly that place of block execution.
+var OnPoint func(site string)
+
+// Point is inserted before every statement of the files selected with instr -points.
+func Point(site string) {
+	if OnPoint != nil {
+		OnPoint(site)
+	}
+}
+
+// KeysAny is Keys for packages whose language version has no generics (the go-ethereum fork): m is any map,
+// the keys come back sorted by their rendering and then permuted as the environment decides.
+func KeysAny(site string, m interface{}) []interface{} {
+	rv := reflect.ValueOf(m)
+	ks := rv.MapKeys()
+	rendered := make([]string, len(ks))
+	idx := make([]int, len(ks))
+	for i, k := range ks {
+		rendered[i] = fmt.Sprintf("%v", k.Interface())
+		idx[i] = i
+	}
+	sort.Slice(idx, func(a, b int) bool { return rendered[idx[a]] < rendered[idx[b]] })
+	sorted := make([]interface{}, len(ks))
+	for i, j := range idx {
+		sorted[i] = ks[j].Interface()
+	}
+	if S == nil {
+		SiteHits[site]++
+	}
+	if MapOrder != nil && len(sorted) > 1 {
+		if perm := MapOrder(site, len(sorted)); perm != nil {
+			out := make([]interface{}, len(sorted))
+			for i, p := range perm {
+				out[i] = sorted[p]
+			}
+			return out
+		}
+	}
+	return sorted
 }
